@@ -163,7 +163,10 @@ func c11PartialDiff(f *fit.File, want map[uint16][]string) string {
 func runC11(w *vx.W) {
 	streams := []namedStream{sMin12, sMin14, sMin14z, sAct3, sAct3BE, sSet, sZero, sMonState, sChain2, sChain2b, sChain3, sChainZero, sChainState}
 	if !w.Quick() {
-		streams = append(streams, sBig, sChainBig)
+		streams = append(streams, sBig, sChainBig, s8192)
+	}
+	streams = append(streams, s4096)
+	{
 	}
 	kinds := []string{"cut", "fault", "fault-with-data"}
 	var idx int64
@@ -180,7 +183,7 @@ func runC11(w *vx.W) {
 		first := s.Members[0]
 		hs := int(first[0])
 		for off := 0; off <= len(s.B); off++ {
-			if len(s.B) > 2000 && off > 300 && off < len(s.B)-300 && off%97 != 0 {
+			if len(s.B) > 2000 && off > 300 && off < len(s.B)-300 && off%97 != 0 && off%4096 > 2 && off%4096 < 4094 {
 				continue
 			}
 			for _, kind := range kinds {
